@@ -1,3 +1,87 @@
-From DI Require Import PyStr Deb822.
-Theorem C06_placeholder : True. Proof. exact I. Qed.
-Print Assumptions C06_placeholder.
+(* C06 - Well-formed deb822 documents parse to exactly their paragraphs and fields.
+   The grammar is Spec/Grammar822.v: paragraphs (non-empty lists of fields) each followed by a
+   number of empty lines (at least one between paragraphs, any number after the last); a field has
+   a name [A-Za-z][A-Za-z0-9-]*, any run of blanks/tabs after the colon, a trimmed first-line value
+   (any characters but LF/CR, possibly empty) and continuation lines (indented, not blank, no
+   trailing blanks); a field has a first-line value or a continuation line. *)
+From Coq Require Import String.
+From Coq Require Import NArith List Bool.
+From DI Require Import Result PyStr Deb822 Email Debcon Grammar822 Grammar822Facts Grammar822Header.
+Import ListNotations.
+Open Scope N_scope.
+
+(* line-tracking parser: exactly the paragraphs in order, each with exactly its fields in order:
+   names lower-cased (licence -> license), first-line values trimmed, continuation lines in order,
+   every line with the number it has in the document *)
+Theorem C06_line_tracking_parser : forall ps, wf_doc ps ->
+  groups (doc_text ps) = Ok (expected_doc 1 ps).
+Proof. exact wf_doc_text_parses. Qed.
+Print Assumptions C06_line_tracking_parser.
+
+(* the same from already numbered lines, whatever the first number *)
+Theorem C06_line_tracking_from_lines : forall ps n, wf_doc ps ->
+  groups_loop (number_from n (doc_src ps)) [] = Ok (expected_doc n ps).
+Proof. exact wf_doc_parses. Qed.
+Print Assumptions C06_line_tracking_from_lines.
+
+(* names and values do not depend on how many empty lines separate the paragraphs *)
+Theorem C06_separator_length_irrelevant : forall ps qs, wf_doc ps -> wf_doc qs -> same_paragraphs ps qs ->
+  rmap (map (map field_content)) (groups (doc_text ps)) =
+  rmap (map (map field_content)) (groups (doc_text qs)).
+Proof. exact separators_irrelevant. Qed.
+Print Assumptions C06_separator_length_irrelevant.
+
+Theorem C06_content : forall ps, wf_doc ps ->
+  rmap (map (map field_content)) (groups (doc_text ps)) = Ok (doc_content ps).
+Proof. exact wf_doc_content. Qed.
+Print Assumptions C06_content.
+
+(* nor on the line end after the last line *)
+Theorem C06_final_newline_irrelevant : forall ps p, wf_doc (ps ++ [(p, 0%nat)]) ->
+  groups (join [10] (doc_src (ps ++ [(p, 0%nat)]))) = groups (doc_text (ps ++ [(p, 0%nat)])).
+Proof. exact final_newline_irrelevant. Qed.
+Print Assumptions C06_final_newline_irrelevant.
+
+(* header-style parser, one paragraph with or without a final line end: exactly the fields in
+   order, names lower-cased, the value = first-line value and continuation lines joined by LF
+   and trimmed.  names_ok: the lower-cased names of a paragraph are pairwise different and none
+   is content-type (a MIME container type there would switch the standard parser to a
+   different reading; C08 covers that path) *)
+Theorem C06_header_parser_paragraph : forall p e, p <> [] -> Forall wf_gfield p -> names_ok p ->
+  (e = [] \/ e = [10]) ->
+  get_paragraph_data (para_text p e) = map hfield p.
+Proof. exact header_parser_paragraph. Qed.
+Print Assumptions C06_header_parser_paragraph.
+
+(* header-style parser: the document is cut into exactly its paragraphs, whatever the number of
+   empty lines between them *)
+Theorem C06_header_parser_split : forall ps, wf_doc ps -> split_in_paragraphs (doc_text ps) = pieces ps.
+Proof. intros ps. exact (split_wf_doc ps false). Qed.
+Print Assumptions C06_header_parser_split.
+
+(* header-style parser, whole document: one dictionary per paragraph in order; the result does not
+   mention the separator lengths at all *)
+Theorem C06_header_parser : forall ps, wf_doc ps -> doc_names_ok ps ->
+  get_paragraphs_data (doc_text ps) = hdoc ps.
+Proof. exact header_parser_doc. Qed.
+Print Assumptions C06_header_parser.
+
+(* the hypotheses are satisfiable: two paragraphs, three empty lines between them *)
+Example C06_nonvacuous :
+  let f1 := mkGField (lit "Package") (lit " ") (lit "a: b") [lit " .x"; lit "  y"] in
+  let f2 := mkGField (lit "X-9-") [] [] [lit " ."] in
+  let f3 := mkGField (lit "Licence") (lit "  ") (lit "GPL") [] in
+  groups (doc_text [([f1; f2], 3%nat); ([f3], 0%nat)]) =
+  Ok [[mkField (lit "package") [mkLine 1 (lit "a: b"); mkLine 2 (lit " .x"); mkLine 3 (lit "  y")];
+       mkField (lit "x-9-") [mkLine 4 []; mkLine 5 (lit " .")]];
+      [mkField (lit "license") [mkLine 9 (lit "GPL")]]].
+Proof. vm_compute. reflexivity. Qed.
+
+Example C06_nonvacuous_header :
+  let f1 := mkGField (lit "Package") (lit " ") (lit "a: b") [lit " .x"; lit "  y"] in
+  let f2 := mkGField (lit "X-9-") [] [] [lit " ."] in
+  let f3 := mkGField (lit "Licence") (lit "  ") (lit "GPL") [] in
+  get_paragraphs_data (doc_text [([f1; f2], 3%nat); ([f3], 0%nat)]) =
+  [[(lit "package", (lit "a: b" ++ [10] ++ lit " .x" ++ [10] ++ lit "  y")%list); (lit "x-9-", lit ".")];
+   [(lit "licence", lit "GPL")]].
+Proof. vm_compute. reflexivity. Qed.
